@@ -13,9 +13,10 @@ import (
 
 // Atom is one elementary condition of a lookup function.
 type Atom struct {
-	Kind string         // "found" (the receiver is a key of Map), "eq" (recv == K), "unknown"
+	Kind string         // "found" (the receiver is a key of Map), "eq" (recv == K), "cmp" (recv Op K, an ordering), "unknown"
 	Map  *types.Var     // for "found"
-	K    constant.Value // for "eq"
+	K    constant.Value // for "eq" / "cmp"
+	Op   token.Token    // for "cmp": GTR, LSS, GEQ, LEQ
 	Neg  bool           // only meaningful in RetPath.Conds (the conjunctive rendering)
 	Text string
 	Pos  token.Pos // syntactic occurrence (identity of an "unknown" atom)
@@ -90,7 +91,10 @@ type Lookup struct {
 	keyAlias map[types.Object]bool       // locals that hold a copy of the receiver / key (`v := recv.Value`)
 	results  []types.Object              // named results
 	mapAlias map[types.Object]*types.Var // helper parameter → the package-level table passed for it
-	depth    int
+	// constParams: helper parameter → the constant string the caller passes for
+	// it (`lookupOr(Table, recv, "UNKNOWN")`)
+	constParams map[types.Object]string
+	depth       int
 }
 
 type lkState struct {
@@ -200,7 +204,7 @@ func (lk *Lookup) tailCall(e ast.Expr, st lkState) bool {
 		return false
 	}
 	sub := &Lookup{Info: info, OkVars: map[types.Object]*types.Var{}, ValVars: map[types.Object]*types.Var{}, Source: lk.Source,
-		fd: fd, mapAlias: map[types.Object]*types.Var{}, depth: lk.depth + 1}
+		fd: fd, mapAlias: map[types.Object]*types.Var{}, constParams: map[types.Object]string{}, depth: lk.depth + 1}
 	give := func(param types.Object, arg ast.Expr) bool {
 		if param == nil {
 			return true
@@ -226,6 +230,12 @@ func (lk *Lookup) tailCall(e ast.Expr, st lkState) bool {
 			} else if m := pkgLevelMap(v); m != nil {
 				sub.mapAlias[param] = m
 			}
+			if sv, ok := lk.constParams[v]; ok && v != nil {
+				sub.constParams[param] = sv
+			}
+		}
+		if sv, ok := StringConst(lk.Info, arg); ok && !assigned(info, fd.Body, param) {
+			sub.constParams[param] = sv
 		}
 		return true
 	}
@@ -261,6 +271,201 @@ func (lk *Lookup) tailCall(e ast.Expr, st lkState) bool {
 	return true
 }
 
+// lookupHelper recognises `helper(recv)` where the module function helper is
+//
+//	func helper(k K) (V, bool) { v, ok := Table[k]; return v, ok }
+//
+// (the table a package-level map, or a parameter the caller binds to one) and
+// returns the table.
+func (lk *Lookup) lookupHelper(e ast.Expr) *types.Var {
+	call, ok := ast.Unparen(e).(*ast.CallExpr)
+	if !ok || lk.Source == nil {
+		return nil
+	}
+	if tv, ok := lk.Info.Types[call.Fun]; ok && (tv.IsType() || tv.IsBuiltin()) {
+		return nil
+	}
+	fun := call.Fun
+	if ix, ok := ast.Unparen(fun).(*ast.IndexExpr); ok {
+		fun = ix.X
+	}
+	if ix, ok := ast.Unparen(fun).(*ast.IndexListExpr); ok {
+		fun = ix.X
+	}
+	fn := StaticCallee(lk.Info, &ast.CallExpr{Fun: fun})
+	if fn == nil {
+		return nil
+	}
+	sig, ok := fn.Type().(*types.Signature)
+	if !ok || sig.Variadic() || sig.Results().Len() != 2 {
+		return nil
+	}
+	if b, ok := sig.Results().At(1).Type().Underlying().(*types.Basic); !ok || b.Kind() != types.Bool {
+		return nil
+	}
+	fd, info := lk.Source(fn)
+	if fd == nil || fd.Body == nil || info == nil || len(fd.Body.List) != 2 {
+		return nil
+	}
+	// bind parameters: the key, and possibly the table
+	var keyParam types.Object
+	alias := map[types.Object]*types.Var{}
+	give := func(param types.Object, arg ast.Expr) bool {
+		if param == nil {
+			return true
+		}
+		if lk.isRecv(arg) {
+			if keyParam != nil {
+				return false
+			}
+			keyParam = param
+			return true
+		}
+		var id *ast.Ident
+		switch x := ast.Unparen(arg).(type) {
+		case *ast.Ident:
+			id = x
+		case *ast.SelectorExpr:
+			id = x.Sel
+		}
+		if id != nil {
+			v, _ := lk.Info.Uses[id].(*types.Var)
+			if a := lk.mapAlias[v]; a != nil && v != nil {
+				alias[param] = a
+			} else if m := pkgLevelMap(v); m != nil {
+				alias[param] = m
+			}
+		}
+		return true
+	}
+	if sig.Recv() != nil {
+		sel, ok := ast.Unparen(fun).(*ast.SelectorExpr)
+		if !ok || fd.Recv == nil || len(fd.Recv.List) != 1 || len(fd.Recv.List[0].Names) != 1 || !give(info.Defs[fd.Recv.List[0].Names[0]], sel.X) {
+			return nil
+		}
+	}
+	i := 0
+	for _, f := range fd.Type.Params.List {
+		for _, n := range f.Names {
+			if i < len(call.Args) && !give(info.Defs[n], call.Args[i]) {
+				return nil
+			}
+			i++
+		}
+	}
+	if keyParam == nil || i != len(call.Args) || assigned(info, fd.Body, keyParam) {
+		return nil
+	}
+	as, ok1 := fd.Body.List[0].(*ast.AssignStmt)
+	rs, ok2 := fd.Body.List[1].(*ast.ReturnStmt)
+	if !ok1 || !ok2 || as.Tok != token.DEFINE || len(as.Lhs) != 2 || len(as.Rhs) != 1 || len(rs.Results) != 2 {
+		return nil
+	}
+	ie, ok := ast.Unparen(as.Rhs[0]).(*ast.IndexExpr)
+	if !ok {
+		return nil
+	}
+	if id, ok := ast.Unparen(ie.Index).(*ast.Ident); !ok || info.Uses[id] != keyParam {
+		return nil
+	}
+	for j := 0; j < 2; j++ {
+		l, ok1 := as.Lhs[j].(*ast.Ident)
+		r, ok2 := ast.Unparen(rs.Results[j]).(*ast.Ident)
+		if !ok1 || !ok2 || info.Defs[l] == nil || info.Uses[r] != info.Defs[l] {
+			return nil
+		}
+	}
+	var id *ast.Ident
+	switch x := ast.Unparen(ie.X).(type) {
+	case *ast.Ident:
+		id = x
+	case *ast.SelectorExpr:
+		id = x.Sel
+	}
+	if id == nil {
+		return nil
+	}
+	v, _ := info.Uses[id].(*types.Var)
+	if a := alias[v]; a != nil && v != nil {
+		return a
+	}
+	return pkgLevelMap(v)
+}
+
+// orCall splits `return cmp.Or(a, b, …)` into one path per operand: an operand
+// that is the value looked up for the receiver is returned when the receiver
+// is a key (the row rules require non-empty names), the next one otherwise.
+func (lk *Lookup) orCall(e ast.Expr, st lkState, ret *ast.ReturnStmt) bool {
+	call, ok := ast.Unparen(e).(*ast.CallExpr)
+	if !ok || len(call.Args) < 2 || call.Ellipsis.IsValid() {
+		return false
+	}
+	fun := call.Fun
+	if ix, ok := ast.Unparen(fun).(*ast.IndexExpr); ok {
+		fun = ix.X
+	}
+	if !IsPkgFunc(StaticCallee(lk.Info, &ast.CallExpr{Fun: fun}), "cmp", "Or") {
+		return false
+	}
+	cond := st.cond
+	add := func(c Formula, res ast.Expr) {
+		lk.Paths = append(lk.Paths, &RetPath{Cond: c, Conds: literalAtoms(c), Ret: ret, Result: res, Owner: lk})
+	}
+	for i, a := range call.Args {
+		if i == len(call.Args)-1 {
+			add(cond, a)
+			break
+		}
+		if m := lk.valueLookup(a); m != nil {
+			f := FAtom{Atom{Kind: "found", Map: m, Text: types.ExprString(a) + ` != ""`, Pos: a.Pos()}}
+			add(And(cond, f), a)
+			cond = And(cond, Not(f))
+			continue
+		}
+		if sv, ok := StringConst(lk.Info, a); ok {
+			if sv != "" {
+				add(cond, a)
+				return true
+			}
+			continue
+		}
+		// fmt.Sprintf with literal text in its format is never empty: chosen for good
+		if sc, ok := ast.Unparen(a).(*ast.CallExpr); ok && IsPkgFunc(StaticCallee(lk.Info, sc), "fmt", "Sprintf") && len(sc.Args) >= 1 {
+			if f, ok := StringConst(lk.Info, sc.Args[0]); ok {
+				if stripVerbs(f) != "" {
+					add(cond, a)
+					return true
+				}
+			}
+		}
+		c := lk.unknown(a)
+		add(And(cond, c), a)
+		cond = And(cond, Not(c))
+	}
+	return true
+}
+
+// stripVerbs removes the fmt verbs from a format: what is left is printed literally.
+func stripVerbs(f string) string {
+	var b strings.Builder
+	rs := []rune(f)
+	for i := 0; i < len(rs); i++ {
+		if rs[i] != '%' {
+			b.WriteRune(rs[i])
+			continue
+		}
+		i++
+		if i < len(rs) && rs[i] == '%' {
+			b.WriteRune('%')
+			continue
+		}
+		for i < len(rs) && !((rs[i] >= 'a' && rs[i] <= 'z') || (rs[i] >= 'A' && rs[i] <= 'Z')) {
+			i++
+		}
+	}
+	return b.String()
+}
+
 func (lk *Lookup) objOf(id *ast.Ident) types.Object {
 	if o := lk.Info.Defs[id]; o != nil {
 		return o
@@ -285,6 +490,9 @@ func (lk *Lookup) bind(s ast.Stmt) bool {
 		return false
 	}
 	m := lk.MapIndexOfRecv(as.Rhs[0])
+	if m == nil && len(as.Lhs) == 2 {
+		m = lk.lookupHelper(as.Rhs[0])
+	}
 	if m == nil || len(as.Lhs) < 1 || len(as.Lhs) > 2 {
 		return false
 	}
@@ -378,7 +586,26 @@ func (lk *Lookup) cond(e ast.Expr, st lkState, depth int) Formula {
 			return And(lk.cond(e.X, st, depth), lk.cond(e.Y, st, depth))
 		case token.LOR:
 			return Or(lk.cond(e.X, st, depth), lk.cond(e.Y, st, depth))
-		case token.EQL, token.NEQ, token.GTR, token.LSS:
+		case token.EQL, token.NEQ, token.GTR, token.LSS, token.GEQ, token.LEQ:
+			// recv < K, recv >= K …: an ordering atom (decided per declared constant by the caller)
+			if e.Op != token.EQL && e.Op != token.NEQ {
+				flip := map[token.Token]token.Token{token.GTR: token.LSS, token.LSS: token.GTR, token.GEQ: token.LEQ, token.LEQ: token.GEQ}
+				for i, p := range [][2]ast.Expr{{e.X, e.Y}, {e.Y, e.X}} {
+					if !lk.isRecv(p[0]) {
+						continue
+					}
+					if tv, ok := lk.Info.Types[p[1]]; ok && tv.Value != nil && constant.ToInt(tv.Value).Kind() == constant.Int {
+						op := e.Op
+						if i == 1 {
+							op = flip[op]
+						}
+						return FAtom{Atom{Kind: "cmp", Op: op, K: constant.ToInt(tv.Value), Text: types.ExprString(e), Pos: e.Pos()}}
+					}
+				}
+				if e.Op == token.GEQ || e.Op == token.LEQ {
+					break
+				}
+			}
 			for i, p := range [][2]ast.Expr{{e.X, e.Y}, {e.Y, e.X}} {
 				if e.Op == token.GTR || e.Op == token.LSS {
 					// len(v) > 0  /  0 < len(v)
@@ -503,6 +730,31 @@ func (lk *Lookup) assign(as *ast.AssignStmt, st lkState) (lkState, bool) {
 			continue
 		}
 		o := lk.objOf(id)
+		// `names := Table`: a local alias of a package-level table
+		if as.Tok == token.DEFINE && lk.Info.Defs[id] != nil {
+			var rid *ast.Ident
+			switch x := ast.Unparen(as.Rhs[i]).(type) {
+			case *ast.Ident:
+				rid = x
+			case *ast.SelectorExpr:
+				rid = x.Sel
+			}
+			if rid != nil {
+				if v, _ := lk.Info.Uses[rid].(*types.Var); v != nil {
+					m := lk.mapAlias[v]
+					if m == nil {
+						m = pkgLevelMap(v)
+					}
+					if _, once := SingleDefs(lk.Info, lk.fd.Body)[o]; m != nil && once {
+						if lk.mapAlias == nil {
+							lk.mapAlias = map[types.Object]*types.Var{}
+						}
+						lk.mapAlias[o] = m
+						continue
+					}
+				}
+			}
+		}
 		switch {
 		case as.Tok == token.DEFINE && lk.Info.Defs[id] != nil && lk.isRecv(as.Rhs[i]):
 			if lk.keyAlias == nil {
@@ -563,6 +815,9 @@ func (lk *Lookup) walkStmt(s ast.Stmt, st lkState) []lkState {
 		case len(s.Results) == 1:
 			p.Result, p.Zero = lk.resolveResult(s.Results[0], st)
 			if !p.Zero && lk.tailCall(p.Result, st) {
+				return nil
+			}
+			if !p.Zero && lk.orCall(p.Result, st, s) {
 				return nil
 			}
 		case len(s.Results) > 1:
@@ -725,7 +980,7 @@ func AnalyseLookupWith(info *types.Info, fd *ast.FuncDecl, src FuncSource) *Look
 // AnalyseLookupKey analyses a function that names the value selected by isKey
 // (nil: the receiver itself).
 func AnalyseLookupKey(info *types.Info, fd *ast.FuncDecl, src FuncSource, isKey func(ast.Expr) bool) *Lookup {
-	lk := &Lookup{Info: info, OkVars: map[types.Object]*types.Var{}, ValVars: map[types.Object]*types.Var{}, fd: fd, Source: src, IsKey: isKey}
+	lk := &Lookup{Info: info, OkVars: map[types.Object]*types.Var{}, ValVars: map[types.Object]*types.Var{}, fd: fd, Source: src, IsKey: isKey, constParams: map[types.Object]string{}}
 	if fd.Recv != nil && len(fd.Recv.List) == 1 && len(fd.Recv.List[0].Names) == 1 {
 		lk.Recv = info.Defs[fd.Recv.List[0].Names[0]]
 	}
@@ -735,6 +990,47 @@ func AnalyseLookupKey(info *types.Info, fd *ast.FuncDecl, src FuncSource, isKey 
 	}
 	lk.run(fd)
 	return lk
+}
+
+// AnalyseLookupFunc is AnalyseLookupKey for a function that need not be a
+// method: the value being named is whatever isKey selects (a parameter).
+func AnalyseLookupFunc(info *types.Info, fd *ast.FuncDecl, src FuncSource, isKey func(ast.Expr) bool) *Lookup {
+	if fd.Recv != nil || isKey == nil {
+		return AnalyseLookupKey(info, fd, src, isKey)
+	}
+	lk := &Lookup{Info: info, OkVars: map[types.Object]*types.Var{}, ValVars: map[types.Object]*types.Var{}, fd: fd, Source: src, IsKey: isKey, constParams: map[types.Object]string{}}
+	// Recv identifies "the value" for the re-assignment check: the parameter isKey selects
+	if fd.Type.Params != nil {
+		for _, f := range fd.Type.Params.List {
+			for _, n := range f.Names {
+				if isKey(n) || isKeyDef(info, n, isKey) {
+					lk.Recv = info.Defs[n]
+				}
+			}
+		}
+	}
+	if lk.Recv == nil {
+		lk.Problems = append(lk.Problems, "the function has no parameter that carries the value")
+		return lk
+	}
+	lk.run(fd)
+	return lk
+}
+
+// isKeyDef: the defining identifier n denotes the object isKey accepts uses of.
+func isKeyDef(info *types.Info, n *ast.Ident, isKey func(ast.Expr) bool) bool {
+	o := info.Defs[n]
+	if o == nil {
+		return false
+	}
+	hit := false
+	for id, u := range info.Uses {
+		if u == o && isKey(id) {
+			hit = true
+			break
+		}
+	}
+	return hit
 }
 
 func (lk *Lookup) run(fd *ast.FuncDecl) {
@@ -793,6 +1089,9 @@ func (lk *Lookup) ClassifyString(e ast.Expr) NameResult {
 	if id, ok := e.(*ast.Ident); ok {
 		if m := lk.ValVars[lk.Info.Uses[id]]; m != nil {
 			return NameResult{FromMap: m}
+		}
+		if sv, ok := lk.constParams[lk.Info.Uses[id]]; ok {
+			return NameResult{Literal: &sv}
 		}
 	}
 	if m := lk.MapIndexOfRecv(e); m != nil {
